@@ -255,7 +255,7 @@ func stackScenarios(which string) []scenario {
 		}})
 	// a process configured with the wrong hash id on the same directory: whatever it does, tables.list
 	// must keep naming only tables of the stack's hash type, and its Adds must not commit
-	out = append(out, scenario{name: "foreign-hash:add-add|add", foreign0: true, directedOnly: true,
+	out = append(out, scenario{name: "foreign-hash:add-add|add", foreign0: true,
 		scripts: [][]sop{opens(add(11), add(12), op("read")), opens(add(21), op("read"), add(22), op("read"))},
 		directed: [][]directive{
 			// the misconfigured handle opens the still empty directory, the regular one commits first
